@@ -70,6 +70,18 @@ let cmd_estimate args =
        | None -> print_endline "outoffuel")
   | _ -> failwith "estimate: bad args"
 
+(* plan <budget> | s0,s1,...  ->  batches of indices: D<i> or B<i>,<j>,... separated by spaces *)
+let cmd_plan args =
+  match List.map String.trim (String.split_on_char '|' args) with
+  | [b; szs] ->
+      let sizes = if szs = "" then [] else ints szs in
+      let objs = List.mapi (fun i sz -> (i, nat_of_int sz)) sizes in
+      let res = plan (fun o -> snd o) (nat_of_int (int_of_string b)) [] (nat_of_int 0) objs in
+      print_endline (String.concat " " (List.map (fun bt -> match bt with
+        | Direct o -> Printf.sprintf "D%d" (fst o)
+        | Bulk os -> "B" ^ String.concat "," (List.map (fun o -> string_of_int (fst o)) os)) res))
+  | _ -> failwith "plan: bad args"
+
 (* ---- streams ---- *)
 let n_of_int n = if n = 0 then N0 else Npos (pos_of_int n)
 let int_of_n = function N0 -> 0 | Npos p -> int_of_pos p
@@ -262,6 +274,16 @@ let run_trace_block () =
               | [k; blob; c; sz] -> { okey = n_of_int (int_of_string k); oblob = hex_to_bytes blob; ocomp = (c = "1"); osize = nat_of_int (int_of_string sz) }
               | _ -> failwith "bad pobj") in
             p_add_to_pack w (z_of_int (int_of_string id)) (List.map po (split_on ';' objs)) (nh = "1") (twice = "1") (fs = "1")
+        | ["import"; nh; twice; fs; spec] ->
+            let po s = (match String.split_on_char ',' s with
+              | [k; blob; c; sz] -> { okey = n_of_int (int_of_string k); oblob = hex_to_bytes blob; ocomp = (c = "1"); osize = nat_of_int (int_of_string sz) }
+              | _ -> failwith "bad pobj") in
+            let batch b = (match String.split_on_char '=' b with
+              | [id; ""] -> (z_of_int (int_of_string id), [])
+              | [id; objs] -> (z_of_int (int_of_string id), List.map po (split_on ';' objs))
+              | _ -> failwith "bad batch") in
+            p_import w (nh = "1") (twice = "1") (fs = "1") (List.map batch (String.split_on_char '|' spec))
+        | ["import"; nh; twice; fs] -> p_import w (nh = "1") (twice = "1") (fs = "1") []
         | ["repack"; id; objs] ->
             let po s = (match String.split_on_char ',' s with
               | [k; blob; c; sz] -> { okey = n_of_int (int_of_string k); oblob = hex_to_bytes blob; ocomp = (c = "1"); osize = nat_of_int (int_of_string sz) }
@@ -280,7 +302,7 @@ let run_trace_block () =
     (String.concat "/" (List.map event_s prog_events)) (dump_world wf)
 
 let () =
-  let extra = ref [("pick", cmd_pick); ("estimate", cmd_estimate); ("por", cmd_por); ("bio", cmd_bio true); ("fio", cmd_bio false); ("zsd", cmd_zsd)] in
+  let extra = ref [("pick", cmd_pick); ("estimate", cmd_estimate); ("plan", cmd_plan); ("por", cmd_por); ("bio", cmd_bio true); ("fio", cmd_bio false); ("zsd", cmd_zsd)] in
   try
     while true do
       let line = input_line stdin in
